@@ -50,6 +50,9 @@ const (
 	OpNewBatchZero    // A=set, B=count (0 or -1)
 	OpNewBatchRel     // A=set, B=relation comp given to the builder, C=target slot: Builder.WithRelation(B).NewBatch(1, target)
 	OpReadDead        // A=slot (dead), B=comp, C=accessor (0 Has, 1 Get): read accessors documented to panic for removed entities
+	OpAssignNone      // A=slot: World.Assign(e) without components
+	OpRelExchangeBad  // A=slot, B=add comp (not a relation), D=target slot: Relations.Exchange(e, [B], nil, relation=B, target)
+	OpBuilderNoRel    // A=set, B=method (0 New, 1 NewBatch, 2 NewBatchQ, 3 Add), C=slot (Add), D=target slot: a target given to a builder without WithRelation
 	numOps
 )
 
@@ -58,7 +61,7 @@ var opNames = [...]string{"none", "NewEntity", "NewEntityWith", "Builder.New", "
 	"Batch.RemoveEntities", "Batch.Add", "Batch.Remove", "Batch.Exchange", "Batch.SetRelation", "Relations.ExchangeBatch",
 	"Batch.AddQ", "Batch.RemoveQ", "Batch.ExchangeQ", "Batch.SetRelationQ", "Relations.ExchangeBatchQ",
 	"Cache.Register", "Cache.Unregister", "Reset", "Relations.Get", "Add2", "Remove2", "Add0", "Register(cached)", "NewEntity(dup)",
-	"Relations.Exchange(none)", "Builder.NewBatch(count<1)", "Builder.WithRelation(x).NewBatch", "Has/Get(removed entity)"}
+	"Relations.Exchange(none)", "Builder.NewBatch(count<1)", "Builder.WithRelation(x).NewBatch", "Has/Get(removed entity)", "Assign(none)", "Relations.Exchange(non-relation)", "Builder(no relation).X(target)"}
 
 // Class is the expected outcome class of an operation.
 type Class uint8
@@ -518,6 +521,12 @@ func (m *Model) Step(op wx.Op) Expect {
 		}
 		e.Val[op.B] = m.nextVal(int(op.A), int(op.B))
 		return set(ClsOK, "")
+	case OpBuilderNoRel:
+		return set(ClsMustPanic, "target-without-relation")
+	case OpAssignNone:
+		return set(ClsMustPanic, "no-components")
+	case OpRelExchangeBad:
+		return set(m.exchange(int(op.A), lst(op.B), nil, true, int(op.B), op.D))
 	case OpReadDead:
 		if !m.Slots[op.A].Alive {
 			return set(ClsMustPanic, "dead-entity")
